@@ -16,6 +16,94 @@ EXEMPT = {
 }
 
 
+def _closure_body(ctx, b, op):
+    from vlib.mir import op_place
+    p = op_place(op)
+    d = b.single_def(p[0]) if p is not None and not p[1] else None
+    if d and d[0] == "stmt" and d[3][0] == "agg" and d[3][1].get("k") == "closure":
+        bs = ctx.prog.get(norm(d[3][1]["def"]))
+        return bs[0] if bs else None
+    return None
+
+
+def over_results(ctx, b, c, nm, ga):
+    """does this adaptor iterate *into* Results (so that an Err yields no item)?  `filter_map(|x| f(x).err())` and a `flatten()` of the lists
+    of diagnostics it yields keep every error: only adaptors whose flattened item type is a Result, or whose mapping function is
+    `Result::ok` itself, drop errors (an `.ok()` / `.unwrap_or()` inside a closure is reported at its own call)."""
+    import re
+    args = [x.strip() for x in split_top(ga.strip("[]"))] if ga else []
+    if nm == "flat_map":
+        # Iterator::flat_map::<U, F>: U is what the closure returns and is iterated into
+        return any(a.startswith("core::result::Result<") for a in args[1:2]) or (len(args) > 1 and args[1].startswith("core::result::Result<"))
+    if nm in ("filter_map", "find_map"):
+        if len(c.args) > 1:
+            k = b.const_of(c.args[1])
+            if (k is not None and len(k) > 3 and isinstance(k[3], dict) and str(k[3].get("rfn", "")).endswith(("Result::<T, E>::ok", "result::Result::ok"))) or re.search(r"FnDef\([^)]*result::\{impl#\d+\}::ok\)", ga):
+                # ... unless the Err items were split off before: `partition(Result::is_ok)` and then `filter_map(Result::ok)` on the Ok part
+                from vlib.mir import op_place
+                p0 = op_place(c.args[0])
+                d0 = b.single_def(b.root(p0)[0]) if p0 is not None else None
+                for _ in range(3):
+                    if d0 and d0[0] == "call" and (d0[2].callee or "").split("::")[-1] in ("into_iter", "iter") and d0[2].args:
+                        pp = op_place(d0[2].args[0])
+                        rt0 = b.root(pp) if pp is not None else None
+                        d0 = b.single_def(rt0[0]) if rt0 is not None else None
+                        continue
+                    break
+                if d0 and d0[0] == "call" and (d0[2].callee or "").endswith("Iterator::partition") and "is_ok" in (d0[2].ga or ""):
+                    return False
+                return True
+            # a closure that matches on a Result item and returns None on the Err arm (directory entries): decided by the closure's own shape
+            cl = _closure_body(ctx, b, c.args[1])
+            pty = (cl.f["locals"][2][0] or "") if cl is not None and cl.f["argc"] >= 2 else ""
+            if re.match(r"^&?(?:'\w+ |'\{erased\} )?core::result::Result<", pty):
+                return True
+        return False
+    if nm == "flatten":
+        # the receiver's items: a closure upstream that returns a Result, or a collection of Results
+        if re.match(r"^\[?(alloc::vec::into_iter::IntoIter|core::slice::iter::Iter(Mut)?)<('\w+, |'\{erased\}, )?core::result::Result<", ga):
+            return True
+        from vlib.mir import op_place
+        p = op_place(c.args[0]) if c.args else None
+        d = b.single_def(b.root(p)[0]) if p is not None else None
+        if d and d[0] == "call" and (d[2].callee or "").split("::")[-1] in ("map",) and len(d[2].args) > 1:
+            cl = _closure_body(ctx, b, d[2].args[1])
+            if cl is not None and (cl.f["locals"][0][0] or "").startswith("core::result::Result<"):
+                return True
+        return False
+    return "result::Result<" in ga
+
+
+def split_top(s):
+    out, depth, cur = [], 0, ""
+    for ch in s:
+        if ch in "<([":
+            depth += 1
+        elif ch in ">)]":
+            depth -= 1
+        if ch == "," and depth == 0:
+            out.append(cur)
+            cur = ""
+        else:
+            cur += ch
+    if cur.strip():
+        out.append(cur)
+    return out
+
+
+def exempt_construct(b, c, nm, ga):
+    """exemptions described by what the construct is, so that they survive a move of the code to another function"""
+    from vlib.mir import op_place
+    if nm in ("filter_map",) and "std::fs::ReadDir" in ga:
+        return "directory entries that cannot be read are skipped on purpose; what the directory expansion may drop is decided by R-C13-dir"
+    if nm in ("unwrap_or_else", "unwrap_or") and c.args:
+        p = op_place(c.args[0])
+        d = b.single_def(b.root(p)[0]) if p is not None else None
+        if d and d[0] == "call" and (d[2].callee or "") == "std::fs::canonicalize":
+            return "canonicalize(path) falls back to the path itself: the file stays in the set under its own spelling and a failure to read it is reported when it is read (P0026)"
+    return None
+
+
 def run(ctx, rep, rid="R-C03-errdrop", crates=None):
     r = rep.rule(rid, "no failure is swallowed by an adaptor: no Result is consumed through IntoIterator (flat_map/flatten/into_iter), .ok(), "
                       ".unwrap_or*() or .map_or*() in product code (two listed exemptions)", floor=300,
@@ -35,14 +123,17 @@ def run(ctx, rep, rid="R-C03-errdrop", crates=None):
             m = loc_macro(c.loc)
             if m and (m[0] in ("Bang:parser",) or str(m[0]).startswith("Derive:")):
                 continue            # generated code: the traversal's own propagation is R-C02-propagate's subject
-            hit = ("result::Result" in cal and nm in ON_RESULT) or (nm in OVER_RESULTS and "result::Result<" in ga)
+            hit = ("result::Result" in cal and nm in ON_RESULT) or (nm in OVER_RESULTS and over_results(ctx, b, c, nm, ga))
             if not hit:
                 continue
             k = cnt[nm] = cnt.get(nm, 0) + 1
             key = "%s|%s#%d" % (norm(b.id), nm, k)
             found += 1
             where = "%s:%d" % (b.f["file"], c.loc[0])
-            if key in EXEMPT:
+            why = exempt_construct(b, c, nm, ga)
+            if why:
+                r.justified(key, why, where)
+            elif key in EXEMPT:
                 r.justified(key, EXEMPT[key], where)
             else:
                 r.finding(key, where, "%s() consumes a Result and forgets its Err: the failure (an unrepresentable literal component, a rule violation, an unreadable "
